@@ -156,6 +156,14 @@ def run(args, rep):
     for pid, p in own:
         tn = trig_names[rng.randrange(len(trig_names))]
         jobs2.append({'id': '%s|TT|own-%s' % (pid, tn), 'p': p, 'variant': 0, 'opts': {'rl': True, 'rg': True}, 'names': {'x': tn}, 'witness': True})
+        if rng.random() < 0.3:
+            # ... with a value-less annotation of the name at module level (`eval: int` binds nothing: a read still reaches the builtin)
+            jobs2.append({'id': '%s|TT|own-%s-d-ann' % (pid, tn), 'p': p, 'variant': 0, 'opts': {'rl': True, 'rg': True}, 'names': {'x': tn}, 'witness': True, 'deco': ['ann']})
+        if rng.random() < 0.5 and any('store' in hs for u in p['uses'] for hs in u.values()):
+            # the stores spelled as another binding statement (annotated assignment with every annotation removal on, for, with, tuple, import), also one suite down
+            sp = _rename.STORE_SPELLINGS[rng.randrange(len(_rename.STORE_SPELLINGS))]
+            jobs2.append({'id': '%s|TT|own-%s-s-%s' % (pid, tn, sp), 'p': p, 'variant': 0, 'opts': {'rl': True, 'rg': True}, 'names': {'x': tn}, 'witness': True,
+                          'store': sp, 'wrap': rng.random() < 0.5})
     skipped2 = _rename.judge_jobs(rep, jobs2, ['c09:'], 'C09o')
     own_n = len(jobs2)
     # (b) generated trigger programs
